@@ -1,4 +1,4 @@
-"""C05 — inbound publishes acked correctly; QoS 2 surfaces exactly once."""
+"""C15 — offline-queue policy decides per operation kind what survives being offline."""
 
 PROP = {'areas': [{'area': 'engine',
             'corpus': ['corpus/engine/d11_half_encoded_connect_service_time.script',
@@ -9,11 +9,11 @@ PROP = {'areas': [{'area': 'engine',
                        'corpus/engine/d7_alias_after_failed_validation.script',
                        'corpus/engine/d9_connack_before_connect_flushed.script'],
             'extra': ['100'],
-            'only_prop': 'C05',
+            'only_prop': 'C15',
             'quick': 4000,
             'thorough': 400000,
-            'tie_fields': ['out', 'ev', 'hq', 'q2in', 'ops']}],
- 'coq_target': 'Properties/C05.vo',
+            'tie_fields': ['done', 'uq', 'rq', 'ops', 'out']}],
+ 'coq_target': 'Properties/C15.vo',
  'modelled': 'protocol.rs ProtocolState: handle_user_event, handle_network_event (opened / closed / incoming data / write completion), service '
              '(pending-connack / connected / pending-disconnect), get_next_service_timepoint, reset and every helper they call (operation table, three intake '
              'queues, current operation, pending tables, ack-timeout heap, packet-id allocation, slow start, keep-alive, session handling, all packet '
@@ -33,13 +33,14 @@ PROP = {'areas': [{'area': 'engine',
          'which the monitor turns false and the script that reproduces it). distinct = distinct command scripts; non-trivial = reached at least one '
          'interesting predicate (x_interesting_predicates_reached)'}
 
-META = {'design_ref': 'DESIGN.md section 7 / C05',
+META = {'design_ref': 'DESIGN.md section 7 / C15',
  'level_note': 'Trusted: Coq kernel; the tie (facade engine.rs, harness, OCaml driver incl. the generator); the reference codec used by the simulated broker '
                '(SpecDecodeC2S / SpecEncodeS2C); abstract component hypotheses of the engine theorems (no-panic of codec / validators / resolvers) are '
                'discharged in the codec / validation / alias developments or stated as premises.',
- 'level_text': 'Coq theorems for every state: QoS 1 publish surfaces once and queues exactly one PUBACK(id) at the back of the high-priority queue; QoS 2 '
-               'first delivery surfaces and is remembered, a duplicate of an unreleased id is acknowledged but not surfaced, PUBREL releases the id and queues '
-               'PUBCOMP; the set survives connection close (C05_close_keeps_inbound_qos2) and a session-present CONNACK and is forgotten by a session-absent '
-               'CONNACK (C05_session_decides_memory); ack order on the wire is the monitor mon_c05_acks on the implementation trace',
+ 'level_text': 'Coq theorems: C15_table (passes_policy equals the documented meaning of the four policies for ALL packets), C15_other_kinds, submission while '
+               'not connected fails exactly the rejected kinds with OfflineQueuePolicyFailed and enqueues the others, and over ALL runs an '
+               'OfflineQueuePolicyFailed completion is only ever delivered to an operation of a rejected kind (see Properties/C15.v); the regenerated '
+               'implementation table (POLICY command, 4 policies x kinds) is compared on every run by the engine area; "rejected operations are never sent '
+               'later / preserved ones are sent after reconnection" is the monitor mon_c15 on the implementation trace.',
  'technique': 'machine-checked proof in Coq over the engine model + lock-step correspondence of the extracted model with the implementation + extracted '
               'monitors on the implementation trace'}
